@@ -338,6 +338,16 @@ func genContainer(c *Ctx) {
 			}
 			return [][]byte{cb, d}
 		}), facts, []W{WList(WInt(0x13), WInt(64), WBytes(set[victim].b), WBytes(d512[:]))})
+		// a sha2-256 multihash cut to 20 bytes (a valid, shorter CID of the same data)
+		if c160, err := (cid.V1Builder{Codec: cid.DagCBOR, MhType: mh.SHA2_256, MhLength: 20}).Sum(set[victim].b); err == nil {
+			d256 := sha256.Sum256(set[victim].b)
+			emitBoth("ctn/cidform/sha256-cut-to-20", true, build(func(i int, cb, d []byte) [][]byte {
+				if i == victim {
+					return [][]byte{c160.Bytes(), d}
+				}
+				return [][]byte{cb, d}
+			}), facts, []W{WList(WInt(0x12), WInt(20), WBytes(set[victim].b), WBytes(d256[:20]))})
+		}
 		// identity-multihash CIDs: the empty CID, the identity CID of other bytes, the identity CID of the data itself
 		emitBoth("ctn/cidform/identity-empty", true, build(func(i int, cb, d []byte) [][]byte {
 			if i == victim {
@@ -390,6 +400,38 @@ func genContainer(c *Ctx) {
 				}
 			}
 			off += len(sec)
+		}
+		// at every boundary between sections: a read that fails there (the stream reader must report it), and a
+		// character outside the base64 alphabet there (when the boundary falls between two groups of the text)
+		off = len(hdr)
+		for i := 0; i <= len(set); i++ {
+			k := off
+			for fi, f := range []ctnFmt{ctnFmts[0], ctnFmts[1]} {
+				data := full
+				kk := k
+				if fi == 1 {
+					data = []byte(base64.StdEncoding.EncodeToString(full))
+					kk = (k + 2) / 3 * 4
+					if kk > len(data) {
+						kk = len(data)
+					}
+				}
+				got := safe(func() W {
+					if _, err := f.readStream(&faultReader{b: data, k: kk, chunk: 4096, err: errInjected}); err != nil {
+						return WStr("refused")
+					}
+					return WStr("accepted")
+				})
+				c.Emit("ctn/fault-at-boundary", WList(WStr("fault"), WStr(f.name), WInt(int64(kk))), got)
+			}
+			if k%3 == 0 && k < len(full) {
+				txt := []byte(base64.StdEncoding.EncodeToString(full))
+				txt[k/3*4] = '!'
+				c.Emit("ctn/corrupt/b64-junk-at-boundary", WList(WStr(ctnFmts[1].name), WBytes(txt), WList(facts...), WList(), WNull), readBoth(ctnFmts[1], txt))
+			}
+			if i < len(set) {
+				off += len(ldw(set[i].c.Bytes(), set[i].b))
+			}
 		}
 		emitBoth("ctn/corrupt/no-header", true, full[len(hdr):], facts, nil)
 		emitBoth("ctn/corrupt/header-version2", true, func() []byte {
@@ -720,6 +762,46 @@ func (s *failingSink) Write(p []byte) (int, error) {
 	return s.buf.Write(p)
 }
 
+// failingStringSink is a failingSink that implements io.StringWriter as well.
+type failingStringSink struct{ failingSink }
+
+func (s *failingStringSink) WriteString(p string) (int, error) {
+	s.calls++
+	if s.calls > s.ok {
+		s.failed = true
+		return 0, errInjected
+	}
+	return s.buf.WriteString(p)
+}
+
+// flakySink fails exactly one call (the failAt-th, counting Write and WriteString calls together) and takes
+// everything else; with str it also implements io.StringWriter.
+type flakySink struct {
+	failAt int
+	calls  int
+	failed bool
+}
+
+func (s *flakySink) Write(p []byte) (int, error) {
+	s.calls++
+	if s.calls == s.failAt {
+		s.failed = true
+		return 0, errInjected
+	}
+	return len(p), nil
+}
+
+type flakyStringSink struct{ flakySink }
+
+func (s *flakyStringSink) WriteString(p string) (int, error) {
+	s.calls++
+	if s.calls == s.failAt {
+		s.failed = true
+		return 0, errInjected
+	}
+	return len(p), nil
+}
+
 // shortSink takes at most `room` bytes in total and reports shorter counts with a nil error afterwards.
 type shortSink struct {
 	room  int
@@ -932,6 +1014,20 @@ func genStream(c *Ctx) {
 				if err := wr.f(fs); err == nil && fs.failed {
 					swallowedW = append(swallowedW, wi*1000000+j)
 				}
+				// the same through a sink that also takes strings (io.StringWriter: files, buffered writers)
+				fss := &failingStringSink{failingSink{ok: j}}
+				if err := wr.f(fss); err == nil && fss.failed {
+					swallowedW = append(swallowedW, wi*1000000+500000+j)
+				}
+				// a sink that fails one call only and takes the following ones
+				fl := &flakySink{failAt: j + 1}
+				if err := wr.f(fl); err == nil && fl.failed {
+					swallowedW = append(swallowedW, wi*1000000+600000+j)
+				}
+				fls := &flakyStringSink{flakySink{failAt: j + 1}}
+				if err := wr.f(fls); err == nil && fls.failed {
+					swallowedW = append(swallowedW, wi*1000000+700000+j)
+				}
 			}
 		}
 		c.Emit("stream/token-"+s.iss.name, WList(WStr("token"), WStr(""), WBytes(nil), WList(), WList()),
@@ -1009,10 +1105,93 @@ func genStream(c *Ctx) {
 					if err := f.writeStream(w, fs); err == nil && fs.failed {
 						swallowedW = append(swallowedW, j)
 					}
+					fss := &failingStringSink{failingSink{ok: j}}
+					if err := f.writeStream(w, fss); err == nil && fss.failed {
+						swallowedW = append(swallowedW, 500000+j)
+					}
+					fl := &flakySink{failAt: j + 1}
+					if err := f.writeStream(w, fl); err == nil && fl.failed {
+						swallowedW = append(swallowedW, 600000+j)
+					}
+					fls := &flakyStringSink{flakySink{failAt: j + 1}}
+					if err := f.writeStream(w, fls); err == nil && fls.failed {
+						swallowedW = append(swallowedW, 700000+j)
+					}
 				}
 			}
 			c.Emit("stream/container-"+f.name, WList(WStr("container"), WStr(f.name), WBytes(data), WList(facts...), WList()),
 				WList(intsW(swallowed), intsW(early), intsW(swallowedW), WBool(agree)))
+		}
+	}
+	// ---- a CAR whose one block is larger than any buffer a reader would reasonably allocate at once (2.5 MiB):
+	// an input that ends inside it is refused wherever the cut falls (offsets at and around the whole mebibytes of
+	// the section), and accepted only when cut between sections
+	if len(pool) > 0 {
+		iss := pool[0].iss
+		blob := bytes.Repeat([]byte("0123456789abcdef"), (5<<19)/16)
+		if d, err := delegation.New(iss.did, iss.did, command.Command("/big"), nil, delegation.WithMeta("blob", blob)); err == nil {
+			if sealed, id, err := d.ToSealed(iss.priv); err == nil {
+				w := container.NewWriter()
+				w.AddSealed(id, sealed)
+				small := pool[len(pool)-1]
+				w.AddSealed(small.c, small.b)
+				if data, err := container.Writer.ToCar(w); err == nil {
+					// section lengths, read from the framing
+					var lens []int
+					for off := 0; off < len(data); {
+						l, n := binary.Uvarint(data[off:])
+						if n <= 0 {
+							break
+						}
+						lens = append(lens, n+int(l))
+						off += n + int(l)
+					}
+					var lensW []W
+					for _, l := range lens {
+						lensW = append(lensW, WInt(int64(l)))
+					}
+					var cuts []int
+					off := 0
+					for _, l := range lens {
+						if l > 1<<20 {
+							pl := len(binary.AppendUvarint(nil, uint64(l)))
+							for base := off; base <= off+pl; base += pl {
+								for j := 1; j*(1<<20) < l; j++ {
+									for _, dlt := range []int{-1, 0, 1} {
+										cuts = append(cuts, base+j*(1<<20)+dlt)
+									}
+								}
+							}
+							cuts = append(cuts, off+1, off+pl, off+pl+36, off+l-1)
+						}
+						off += l
+						cuts = append(cuts, off)
+					}
+					for _, k := range cuts {
+						if k < 0 || k > len(data) {
+							continue
+						}
+						for ri, rd := range []func() (container.Reader, error){
+							func() (container.Reader, error) { return container.FromCar(data[:k]) },
+							func() (container.Reader, error) { return container.FromCarReader(bytes.NewReader(data[:k])) },
+							func() (container.Reader, error) {
+								return container.FromCarReader(&faultReader{b: data, k: k, chunk: 65536, err: io.EOF})
+							},
+							func() (container.Reader, error) {
+								return container.FromCarReader(&dataEOFReader{b: data[:k]})
+							},
+						} {
+							got := safe(func() W {
+								if _, err := rd(); err != nil {
+									return WStr("refused")
+								}
+								return WStr("accepted")
+							})
+							c.Emit("stream/big-section-cut", WList(WStr("bigcut"), WList(lensW...), WInt(int64(k)), WInt(int64(ri))), got)
+						}
+					}
+				}
+			}
 		}
 	}
 	_ = command.Top
